@@ -56,7 +56,7 @@ def run_pair(prog, nl, nr):
     name = "local=%d remote=%d" % (nl, nr)
     out = {"entry": name, "states": 0, "queries": 0, "solver_s": 0.0, "obligations": 0, "discharged": 0,
            "inconclusive": [], "gaps": {}, "reports": [], "samples": [], "stubs": [], "kinds": {}}
-    eng = H.new_engine(prog, loop_bound=64)
+    eng = H.new_engine(prog, loop_bound=64, max_paths=60000)
     _c0 = H.cross_begin()
 
     def thunk(ctx):
@@ -183,11 +183,13 @@ def oracle_violated(case, nat):
 def run(tier, regenerate=True):
     chk = Check(PROP, tier)
     max_n = 2 if tier == "quick" else 3
-    chk.bounds = {"local_suffix_max": max_n, "remote_suffix_max": max_n, "times": "symbolic seconds+nanos",
+    chk.bounds = {"local_suffix_max": max_n, "remote_suffix_max": max_n, "local_plus_remote_max": 4 if tier == "quick" else 5,
+                  "times": "symbolic seconds+nanos",
                   "commits": "symbolic 16-bit ids, distinct within one side"}
     prog = H.load_program(CRATES, regenerate=regenerate)
     chk.extra["mir_regeneration_s"] = prog.timings
-    pairs = [(a, b) for a in range(0, max_n + 1) for b in range(0, max_n + 1) if a + b > 0]
+    # thorough: every pair up to 3 x 3 except 3 x 3 itself (tens of thousands of paths: hours)
+    pairs = [(a, b) for a in range(0, max_n + 1) for b in range(0, max_n + 1) if 0 < a + b <= (4 if tier == "quick" else 5)]
     results = par.map_entries(lambda p: run_pair(prog, p[0], p[1]), pairs)
     rep = None
     blocks = {}
